@@ -281,11 +281,6 @@ End Arith.
 (** ------------------------------------------------------------------ *)
 (** closed form of the tree-shape count: with h the least height such that
     size <= chunk * b^h, the root holds ceil(size / (chunk * b^(h-1))) references *)
-Section Closed.
-Variables chunk branching : N.
-Hypothesis Hc : 1 <= chunk.
-Hypothesis Hb : 2 <= branching.
-
 Lemma cdiv_le_iff n d k : 0 < d -> (cdiv n d <= k <-> n <= d * k).
 Proof.
   intros Hd. destruct (N.eq_dec n 0) as [->|Hn].
@@ -298,6 +293,11 @@ Proof.
     + assert ((n - 1) / d < k); [|lia].
       apply N.div_lt_upper_bound; lia.
 Qed.
+
+Section Closed.
+Variables chunk branching : N.
+Hypothesis Hc : 2 <= chunk.
+Hypothesis Hb : 2 <= branching.
 
 Lemma level_counts_closed : forall (f : nat) (x q : N),
   1 <= q -> 2 <= cdiv x q -> cdiv x q <= 2 ^ N.of_nat f ->
@@ -336,23 +336,26 @@ Proof.
       rewrite N.pow_succ_r'. lia.
 Qed.
 
+Lemma height_from_S f cap x :
+  height_from (S f) branching cap x =
+  if x <=? cap then O else S (height_from f branching (cap * branching) x).
+Proof. reflexivity. Qed.
+
 Lemma root_refs_is_closed x :
   chunk < x -> x < W64 -> root_refs chunk branching x = Some (root_refs_closed chunk branching x).
 Proof.
   intros Hx Hw. unfold root_refs, root_refs_closed, height.
-  change 64%nat with (S 63).
-  rewrite level_counts_closed.
-  - cbn [height_from]. destruct (N.leb_spec x chunk); [lia|].
-    replace (S (height_from 63 branching (chunk * branching) x) - 1)%nat
-      with (height_from 63 branching (chunk * branching) x) by lia.
-    reflexivity.
-  - lia.
-  - apply cdiv_ge2; lia.
-  - rewrite cdiv_pred by lia.
+  assert (Hf : cdiv x chunk <= 2 ^ N.of_nat 63).
+  { rewrite cdiv_pred by lia.
     assert ((x - 1) / chunk < 2 ^ N.of_nat 63); [|lia].
     apply N.div_lt_upper_bound; [lia|].
     change (2 ^ N.of_nat 63) with 9223372036854775808.
-    rewrite W64_val in Hw. nia.
+    rewrite W64_val in Hw. nia. }
+  change 64%nat with (S 63).
+  remember 63%nat as f eqn:Ef. clear Ef.
+  rewrite level_counts_closed; [| lia | apply cdiv_ge2; lia | exact Hf].
+  rewrite height_from_S. destruct (N.leb_spec x chunk); [lia|].
+  rewrite Nat.sub_succ, Nat.sub_0_r. reflexivity.
 Qed.
 
 (** [height] is the least h with x <= chunk * b^h (given enough fuel) *)
